@@ -78,7 +78,13 @@ def _system_case(ctx, max_m=6, max_ch=8):
             rng.shuffle(ref)
         if np.min(np.abs(S.phi[ref, :]).max(axis=0)) < 0.2:
             continue
-        idx = sysgen.observability_index(S, ref)
+        weak = False
+        if rng.random() < 0.3:
+            # stress stream: one mode only weakly visible at the references (still observed: the premise holds); the factors
+            # are then ill-conditioned (1e3..1e6) but both routines stay accurate to ~1e-9 above the gap guard
+            S.phi[ref, rng.randrange(m)] *= 10 ** -rng.uniform(2, 4.5)
+            weak = True
+        idx = sysgen.observability_index(S, ref, tol=(1e-9 if weak else 1e-6))
         if idx is None:
             continue
         br = idx + 1 + rng.randint(0, 3)
